@@ -664,7 +664,8 @@ class Table(Vector):
 
 				if not found:
 					raise _missing_col_error(col_name)
-			return Table(selected_cols)
+			# (a narrower view of the same table: it keeps the table's own name, like t[1:3])
+			return Table(selected_cols, name=self._name)
 		
 		if isinstance(key, tuple):
 			if len(key) != len(self.shape):
@@ -708,7 +709,7 @@ class Table(Vector):
 			elif isinstance(col_spec, slice):
 				# Column slice by index
 				selected = row_sliced.cols()[col_spec]
-				return Table(selected)
+				return Table(selected, name=self._name)
 			elif isinstance(col_spec, str):
 				# Single column by name
 				return row_sliced[col_spec]
